@@ -2,7 +2,7 @@ SPECIFICATION Spec
 CONSTANTS
   MaxLen = 1
   Alpha = "full"
-  Defects = {"underscoreSig", "emptyName"}
+  Defects = {}
   Emit = TRUE
 INVARIANTS TypeOK EmitInv
 CHECK_DEADLOCK FALSE
